@@ -766,3 +766,100 @@ Lemma session_example :
   d_status d = Live /\ mres (d_m d) = false /\ halted (d_st d) = true /\ reason (d_st d) = H_INSTRUCTION /\
   d_bps d = [] /\ length (events (d_st d)) = 5%nat.
 Proof. vm_compute. repeat split; reflexivity. Qed.
+
+(* ---------- the tick counter never decreases; events form a chain ---------- *)
+
+Definition rstate (r : rres) : mach :=
+  match r with RDone x | RBp x _ | RCrash _ x | RNeedIn x | RFuel x => x end.
+
+Lemma mtick_mn m x : mn x <= mn (rstate (mtick m x)).
+Proof. unfold mtick. destruct (tick m (ms x)); simpl; lia. Qed.
+
+Lemma run_loop_mn m di bps t : forall fuel x, mn x <= mn (rstate (run_loop m di bps t fuel x)).
+Proof.
+  induction fuel; intros x; simpl; [lia |].
+  destruct (halted (ms x)); [simpl; lia |].
+  destruct (pc (ms x) >=? code_len m); [simpl; lia |].
+  pose proof (mtick_mn m x) as M.
+  destruct (mtick m x) as [x' | x' h | k x' | x' | x']; simpl in *; try lia.
+  destruct (check_bps m di bps t (ms x')) as [[h|] | k]; simpl; try lia.
+  specialize (IHfuel x'). lia.
+Qed.
+
+Lemma cpu_run_mn m di bps t fuel x : mn x <= mn (rstate (cpu_run m di bps t fuel x)).
+Proof. unfold cpu_run. apply (run_loop_mn m di bps t fuel (mkMach _ None (mn x) _)). Qed.
+
+Lemma cpu_next_mn m di bps fuel x : mn x <= mn (rstate (cpu_next m di bps fuel x)).
+Proof.
+  unfold cpu_next.
+  destruct ((pc (ms x) <? 0) || (pc (ms x) >=? code_len m)); [simpl; lia |].
+  destruct (decode (skipn (Z.to_nat (pc (ms x))) (m_code m))) as [| | i size]; try (simpl; lia).
+  pose proof (mtick_mn m x) as M.
+  destruct i; try exact M.
+  - pose proof (cpu_run_mn m di bps (TNext (pc (ms x) + size)) fuel x) as R.
+    destruct (cpu_run m di bps (TNext (pc (ms x) + size)) fuel x) as [x' | x' [a|] | | |]; exact R.
+  - destruct (nthZ (m_literals m) idx); [exact M | simpl; lia].
+Qed.
+
+Lemma next_loop_mn m di bps stmt fuel0 : forall fuel x,
+  mn x <= mn (rstate (next_loop m di bps stmt fuel0 fuel x)).
+Proof.
+  induction fuel; intros x; simpl; [lia |].
+  destruct (halted (ms x)); [simpl; lia |].
+  pose proof (cpu_next_mn m di bps fuel0 x) as N.
+  destruct (cpu_next m di bps fuel0 x) as [x' | x' h | k x' | x' | x']; simpl in *; try lia.
+  destruct (find_nonempty m di (pc (ms x'))); [| simpl; lia].
+  destruct (stmt_neq a stmt); [simpl; lia |]. specialize (IHfuel x'). lia.
+Qed.
+
+Lemma finish_mn d r b : d_m (finish d r b) = rstate r.
+Proof. destruct r as [x | x [a|] | k x | x | x]; reflexivity. Qed.
+
+Lemma exec_cmd_mn m di fuel d c : mn (d_m d) <= mn (d_m (exec_cmd m di fuel d c)).
+Proof.
+  unfold exec_cmd. destruct (d_status d); try lia.
+  destruct c.
+  - destruct (blocked (d_st d)); [simpl; lia |]. unfold do_step.
+    destruct (find_nonempty m di (pc (d_st d))); [| simpl; lia]. rewrite finish_mn. apply cpu_run_mn.
+  - destruct (blocked (d_st d)); [simpl; lia |]. unfold do_next.
+    destruct (find_nonempty m di (pc (d_st d))); [| simpl; lia]. rewrite finish_mn. apply next_loop_mn.
+  - destruct (blocked (d_st d)); [simpl; lia |]. rewrite finish_mn. apply mtick_mn.
+  - destruct (blocked (d_st d)); [simpl; lia |]. rewrite finish_mn. apply cpu_next_mn.
+  - destruct (blocked (d_st d)); [simpl; lia |]. rewrite finish_mn. apply cpu_run_mn.
+  - unfold do_break. destruct (l <? 0); [simpl; lia |]. destruct (resolve_line di l); simpl; lia.
+  - unfold do_delbr. destruct (l <? 0); [simpl; lia |]. destruct (resolve_line di l); [| simpl; lia].
+    destruct (existsb _ _); simpl; lia.
+Qed.
+
+Lemma exec_cmd_dead m di fuel d c : d_status d <> Live -> exec_cmd m di fuel d c = d.
+Proof. intros N. unfold exec_cmd. destruct (d_status d); try reflexivity. contradiction. Qed.
+
+Lemma exec_cmds_snoc m di fuel d h c :
+  exec_cmds m di fuel d (h ++ [c]) = exec_cmd m di fuel (exec_cmds m di fuel d h) c.
+Proof. unfold exec_cmds. rewrite fold_left_app. reflexivity. Qed.
+
+(* the events after h ++ [c] extend the events after h *)
+Lemma events_chain m di sc fuel h c :
+  loads_clean m = true ->
+  let d := session m di sc fuel h in
+  let d' := session m di sc fuel (h ++ [c]) in
+  d_status d' = Live ->
+  mn (d_m d) <= mn (d_m d') /\ exists l, events (d_st d') = l ++ events (d_st d).
+Proof.
+  intros C d d' L'.
+  assert (E' : d' = exec_cmd m di fuel d c) by (unfold d', d, session; apply exec_cmds_snoc).
+  assert (L : d_status d = Live).
+  { destruct (d_status d) eqn:Es; try reflexivity;
+      rewrite E', exec_cmd_dead in L' by congruence; congruence. }
+  pose proof (exec_cmd_mn m di fuel d c) as M. rewrite <- E' in M.
+  split; [exact M |].
+  destruct (session_inv m di sc fuel h C L) as [sp [T [P [E _]]]].
+  destruct (session_inv m di sc fuel (h ++ [c]) C L') as [sp' [T' [P' [Ee' _]]]].
+  fold d in T, P, E. fold d' in T', P', Ee'.
+  replace (Z.to_nat (mn (d_m d'))) with
+      (Z.to_nat (mn (d_m d)) + (Z.to_nat (mn (d_m d')) - Z.to_nat (mn (d_m d))))%nat in T' by lia.
+  rewrite (ticks_add m _ _ _ _ T) in T'.
+  destruct (ticks_ext m _ _ _ T') as [l Hl]. exists l.
+  change (events (ms (d_m d')) = l ++ events (ms (d_m d))).
+  rewrite <- (eqh_events _ _ E), <- (eqh_events _ _ Ee'). exact Hl.
+Qed.
